@@ -45,7 +45,7 @@ Section Cbt.
   (* post_process; None = glwe_pack's assert that every key is below n *)
   Definition post_process (a : poly) : option poly :=
     if negb (log_gap_in =? lgo) then
-      let a_trace := p_trace n (logn - log_gap_in + 1) a in
+      let a_trace := p_trace n (logn - log_gap_in) a in
       if (2 ^ ld - 1) * 2 ^ lgo <? n then
         Some (fun j =>
           if j mod 2 ^ lgo =? 0 then
@@ -53,7 +53,7 @@ Section Cbt.
             if (0 <=? t) && (t <? 2 ^ ld) then p_rot n (- (t * 2 ^ log_gap_in)) a_trace 0 else 0
           else 0)
       else None
-    else Some (p_trace n (logn - log_gap_in + 1) a).
+    else Some (p_trace n (logn - log_gap_in) a).
 
   (* row i of column 0 of the result, before GGLWE -> GGSW expansion *)
   Definition cb_row (msg i : Z) : option poly :=
